@@ -30,7 +30,7 @@ From HV Require Import lib.Harness model.Validity model.Builder spec.BuilderS pr
   proofs.BuilderAcyclicP proofs.BuilderNonLocalP proofs.BuilderInputsP proofs.BuilderLinearP proofs.BuilderCopyP
   model.Builder2 proofs.Builder2EmbP spec.Builder2WFS proofs.Builder2P proofs.Builder2FrameP proofs.Builder2RulesP proofs.Builder2TypeP proofs.Builder2NonLocalP
   spec.Builder2LiveS proofs.Builder2AcyclicP proofs.Builder2LinearP proofs.Builder2ValidP
-  model.Builder3 proofs.Builder3EmbP.
+  model.Builder3 proofs.Builder3EmbP proofs.Builder3IndexP.
 
 (* ---- tie of the validity predicate's tables to the Rust sources (regenerated data: gen/RustTables.v) ---- *)
 From HV Require Import gen.RustTables proofs.RustTablesP proofs.RustSigP.
@@ -547,3 +547,21 @@ Theorem C01_builder3_example : exists g, run3 ex9_tys ex9_sigs ex9_prog = Ok g /
   existsb (fun r => ecode_eqb (classify ex9_tys g (redges g) r) EOk && negb (is_static (r_kind r))) (redges g) = true.
 Proof. exact ex9_runs. Qed.
 Print Assumptions C01_builder3_example.
+
+(* Rules 0 and 6 for EVERY program of the third language — functions, modules, control-flow graphs, function constants,
+   everything of the extended language — with NO premise: whenever the builder calls do not raise, in the serialised
+   document node 0 is the root, every other parent is an earlier node, every edge joins existing nodes (Hugr.add_node
+   refuses a missing parent, Hugr.add_link a missing end; insert_hugr re-indexes consistently) and no edge touches the
+   root (the builders only link nodes created after the root or found in the interpreter's dictionaries — wires,
+   statements, functions, module constants —, which never name the root).  The same for the nested documents of
+   function-valued constants.  The other rules are MONITORED for programs of the third language that are not embedded
+   ones (`valid` on the implementation's document; the correspondence run3s == document holds on every generated
+   program). *)
+Theorem C01_builder3_index_root : forall tys sigs p g,
+  run3 tys sigs p = Ok g -> r_index g = true /\ r_root_no_edges g = true.
+Proof. exact run3_index_root. Qed.
+Print Assumptions C01_builder3_index_root.
+Theorem C01_builder3_index_root_subs : forall tys sigs p subs g gs, run3s tys sigs p subs = Ok (g, gs) ->
+  (r_index g = true /\ r_root_no_edges g = true) /\ forall x, In x gs -> r_index x = true /\ r_root_no_edges x = true.
+Proof. exact run3s_index_root. Qed.
+Print Assumptions C01_builder3_index_root_subs.
